@@ -74,6 +74,14 @@ func cmdCheck(argv []string) int {
 		fmt.Fprintln(os.Stderr, "load error:", err)
 		return 2
 	}
+	// every contract must bind to a function of the current tree (a renamed or removed function is an engine
+	// error, not a verdict)
+	for _, sp := range l.specs.all {
+		if l.findFunc(sp) == nil {
+			fmt.Fprintf(os.Stderr, "ENGINE ERROR: contract does not bind: %s.%s (%s)\n", sp.Pkg, sp.Name, sp.File)
+			return 2
+		}
+	}
 	specs := l.specs.funcsFor(*prop)
 	if *only != "" {
 		var f []*FuncSpec
